@@ -515,10 +515,10 @@ PLANS = {
     'C15': {
         'level': 'proof', 'coq': 'Properties_C15',
         'rule': 'ordered (source, target) pairs: 22 posit->posit pairs (different nbits and es, identity pairs), 13 cfloat->cfloat pairs (different geometry and '
-                'sub/sup/sat flags), 32 fixpnt->fixpnt pairs (Modulo and Saturate; more/fewer integer and fraction bits), 18 integer->integer pairs, 6 posit->integer '
+                'sub/sup/sat flags), 32 fixpnt->fixpnt pairs (Modulo and Saturate; more/fewer integer and fraction bits), 18 integer->integer pairs, 21 lns->lns pairs (both behaviours, more/fewer fraction bits), 6 posit->integer '
                 'and 6 integer->posit adapter pairs; every source encoding when the source has <= 12 bits, structured samples above. The target must hold the value '
                 'nearest to the source under its own rounding and range rule (identity when representable). non-trivial = all; distinct = distinct lines',
-        'assumptions': ['the sign of a zero is not required to survive a cfloat -> cfloat conversion', 'conversions through double and lns -> lns are not covered'],
+        'assumptions': ['the sign of a zero is not required to survive a cfloat -> cfloat conversion', 'conversions between families through double are not covered', 'lns -> lns is judged by an acceptance predicate (nearest multiple of 2^-r2 of the exact logarithm E1/2^r1; either neighbour at an exact tie, because the library goes through double), proved to accept only the identity when the value is representable'],
         'streams': [exh('convcfg_exh%d' % k, 'convcfg_p%d' % k, 'arith', shards=8) for k in range(3)] +
                    [rnd('convcfg_rnd%d' % k, 'convcfg_p%d' % k, 'arith', 3000, 60000, shards=8) for k in range(3)],
     },
